@@ -71,6 +71,8 @@ type decoded struct {
 	ps  []*cedar.Policy
 	err error // nil = ended with io.EOF
 	rec *recReader
+	// resumed: after a non-EOF error a later Decode call returned a policy or io.EOF
+	resumed bool
 }
 
 // decodeAll runs the Decode loop to its end.
@@ -93,6 +95,23 @@ func decodeAll(c *Case) decoded {
 		}
 		if err != nil {
 			out.err = err
+			// A failed document must not turn into a successful one by asking again: after an error the decoder may
+			// keep failing, but it must neither hand out further policies (they would start somewhere in the middle of
+			// the document) nor report a clean end of stream.
+			for k := 0; k < 3; k++ {
+				var q cedar.Policy
+				err2 := dec.Decode(&q)
+				if err2 == nil {
+					out.err = fmt.Errorf("%w; RESUMED: Decode call %d after that error returned a policy", err, k+1)
+					out.resumed = true
+					break
+				}
+				if err2 == io.EOF {
+					out.err = fmt.Errorf("%w; RESUMED: Decode call %d after that error reported a clean io.EOF", err, k+1)
+					out.resumed = true
+					break
+				}
+			}
 			return out
 		}
 		pp := p
@@ -122,6 +141,9 @@ func checkStream(c *Case) (string, string, decoded) {
 	doc := c.bytes()
 	whole, werr := cedar.NewPolicyListFromBytes("", doc)
 	d := decodeAll(c)
+	if d.resumed {
+		return "stream/resumed-after-error", fmt.Sprintf("streaming decode under schedule %s: %v", ir.JSON(c.Sched), d.err), d
+	}
 	if (werr != nil) != (d.err != nil) {
 		return "stream/error-mismatch", fmt.Sprintf("whole-slice parse: err=%v (%d policies); streaming decode under schedule %s: err=%v (%d policies)", werr, len(whole), ir.JSON(c.Sched), d.err, len(d.ps)), d
 	}
@@ -152,6 +174,9 @@ func checkStream(c *Case) (string, string, decoded) {
 func checkFault(c *Case) (string, string) {
 	doc := c.bytes()
 	d := decodeAll(c)
+	if d.resumed {
+		return "fault/resumed-after-error", fmt.Sprintf("reader failed after %d of %d bytes under schedule %s: %v", c.Fault.At, len(doc), ir.JSON(c.Sched), d.err)
+	}
 	if c.Fault.At >= len(doc) {
 		if d.err == nil {
 			ev.R.Label("fail-at-end:not-reported", 1)
